@@ -19,3 +19,16 @@ PROPS["C01"] = {
     ],
     "timeout": {"quick": 600, "thorough": 2400},
 }
+
+PROPS["C08"] = {
+    "level": "exploration",
+    "engine": "rapid",
+    "technique": "metamorphic testing: permuted directory listing orders and root counts must not change the result; sortedness predicate on the output",
+    "level_text": "Generated-input search with metamorphic oracles between real runs: the same tree is scanned under 2-4 independently drawn listing permutations of every directory and both directory-handle modes and must give identical, sorted output; a scan of 2-3 roots must equal the multiset union of the single-root scans with no package object repeated.",
+    "level_note": "Trusted: the in-memory FS's permutation knob. Go map-iteration randomness is sampled by repeated runs, not controlled. The free-text failure reason is excluded (it concatenates errors in walk order, as the repository's own tests acknowledge); the number of status entries per plugin for several roots is not pinned by the property and not asserted.",
+    "rule": "rapid-generated trees x 2..4 listing permutations x both ReadDirFile modes x fake extractors drawing package names from a pool of 1..3 so that sort keys tie x 0..3 fake detectors with findings tying on the advisory reference; every 4th case scans 2..3 roots (distinct trees or the same tree twice); non-trivial = (single root) >=2 directories with >=2 entries and >=2 packages, (multi root) >=2 roots contributing packages; distinct by hash of the case JSON",
+    "assumptions": ["documented order: packages by (name, version, extractor name, locations), statuses by name, findings by (advisory reference, extra)",
+                    "detectors only see the first root by design and are left out of multi-root cases"],
+    "legs": [{"fam": "scanfam", "run": "^TestC08$"}],
+    "timeout": {"quick": 600, "thorough": 2400},
+}
